@@ -78,8 +78,8 @@ impl<'h> FindMatchesImpl<'h> {
                 .scanner_impl
                 .find_from(&self.input[self.offset..], self.char_indices.clone());
             if let Some(mut matched) = result {
-                self.advance_beyond_match(matched);
                 matched.add_offset(self.offset);
+                self.advance_beyond_match(matched);
                 return Some(matched);
             } else if let Some((i, c)) = self.char_indices.next() {
                 self.record_line_offset(i + self.offset, c);
@@ -167,12 +167,13 @@ impl<'h> FindMatchesImpl<'h> {
     /// If the new position is less than the current position of the char_indices iterator, the
     /// function returns the current position of the char_indices iterator.
     pub(crate) fn advance_to(&mut self, position: usize) -> usize {
-        if position < self.last_position {
-            // The new position is less than the current position of the char_indices iterator.
-            // The iterator is advanced by one character and the next character is not returned by
-            // the iterator.
+        // The position is absolute, like the spans of the matches, while the char_indices
+        // iterator counts from the offset of the last reset.
+        if position <= self.input.len() - self.char_indices.as_str().len() {
+            // The new position is not beyond the current position of the char_indices iterator.
             return self.last_position;
         }
+        let position = position - self.offset;
         let mut new_position = 0;
         let mut line_start_offsets = vec![];
         let mut last_char = self.last_char;
